@@ -52,6 +52,28 @@ class ExprParser2(ExprParser):
                 break
         return ' '.join(tf[1:-1])
 
+    def parse_primary(self, nostruct=False):
+        # closures: `|a, &b| expr`, `|| expr`, `move |x| { .. }` -> ('closure', parameter tokens, body)
+        c = self.c
+        t = c.peek()
+        if t in ('|', '||', 'move'):
+            if t == 'move':
+                c.next()
+                t = c.peek()
+            params = []
+            if t == '||':
+                c.next()
+            else:
+                c.next()
+                while c.peek() != '|':
+                    params.append(c.next())
+                c.next()
+            if c.peek() == '->':
+                raise Unsupported('closure with a return type')
+            body = self.parse_expr()
+            return ('closure', ('pat', params), body)
+        return super().parse_primary(nostruct)
+
     def parse_postfix(self, nostruct):
         c = self.c
         e = self.parse_primary(nostruct)
@@ -199,7 +221,26 @@ def lean_pattern(toks, arity):
 
 
 def lean_body_expr(e, scope):
+    """an expression of a layering function in Lean: parameters and pattern variables, `None`,
+    `Some(x)`, `true` / `false`, calls of the other layering functions, the `Option` combinators
+    `or` / `unwrap_or` (and their closure forms when the closure takes no argument), `if` on a
+    boolean or an `if let`, nested `match`, parentheses and blocks with plain `let` statements"""
     k = e[0]
+    if k == 'paren':
+        return lean_body_expr(e[1], scope)
+    if k == 'block':
+        _, stmts, tail = e
+        scope = set(scope)
+        lets = []
+        for st in stmts:
+            if st[0] == 'let' and len(st) >= 4 and st[3] is not None and isinstance(st[1], list) and len(st[1]) == 1 and re.fullmatch(r'[a-z_][a-z0-9_]*', st[1][0]):
+                lets.append(f'let {lean_ident(st[1][0])} := {lean_body_expr(st[3], scope)}; ')
+                scope.add(st[1][0])
+            else:
+                raise Unsupported(f'statement {st}')
+        if tail is None:
+            raise Unsupported('block without a value')
+        return '(' + ''.join(lets) + lean_body_expr(tail, scope) + ')'
     if k == 'path' and len(e[1]) == 1:
         n = e[1][0]
         if n in ('true', 'false'):
@@ -210,8 +251,42 @@ def lean_body_expr(e, scope):
             return lean_ident(n)
         raise Unsupported(f'unbound name {n}')
     if k == 'call' and e[1] == ('path', ['Some']) and len(e[2]) == 1:
-        return f'some {lean_body_expr(e[2][0], scope)}'
-    raise Unsupported(f'arm body {e}')
+        return f'(some {lean_body_expr(e[2][0], scope)})'
+    if k == 'call' and e[1][0] == 'path' and len(e[1][1]) == 1 and e[1][1][0] in LAYER_FNS:
+        return '(' + e[1][1][0] + ''.join(' ' + lean_body_expr(a, scope) for a in e[2]) + ')'
+    if k == 'method':
+        _, recv, name, args, _tf = e
+        r = lean_body_expr(recv, scope)
+        if name in ('or', 'unwrap_or') and len(args) == 1:
+            a = lean_body_expr(args[0], scope)
+            return f'(Option.or {r} {a})' if name == 'or' else f'(Option.getD {r} {a})'
+        if name in ('is_some', 'is_none') and not args:
+            return f'(Option.{"isSome" if name == "is_some" else "isNone"} {r})'
+        raise Unsupported(f'method .{name}()')
+    if k == 'un' and e[1] == '!':
+        return f'(!{lean_body_expr(e[2], scope)})'
+    if k == 'if':
+        _, cond, th, el = e
+        if el is None:
+            raise Unsupported('if without else')
+        if cond[0] == 'iflet':
+            _, pat, scrut = cond
+            sc = lean_body_expr(scrut, scope)
+            alts = lean_pattern(pat, 1)
+            return (f'(match {sc} with | ' + ' | '.join(alts) + ' => ' + lean_body_expr(th, set(scope) | pattern_vars(pat)) +
+                    ' | _ => ' + lean_body_expr(el, scope) + ')')
+        return f'(if {lean_body_expr(cond, scope)} then {lean_body_expr(th, scope)} else {lean_body_expr(el, scope)})'
+    if k == 'match':
+        _, scrut, arms = e
+        scruts = scrut[1] if scrut[0] == 'tuple' else [scrut]
+        out = '(match ' + ', '.join(lean_body_expr(x, scope) for x in scruts) + ' with'
+        for pat, guard, rhs in arms:
+            if guard is not None:
+                raise Unsupported('match guard')
+            alts = lean_pattern(pat, len(scruts))
+            out += ' | ' + ' | '.join(alts) + ' => ' + lean_body_expr(rhs, set(scope) | pattern_vars(pat))
+        return out + ')'
+    raise Unsupported(f'expression {e}')
 
 
 def pattern_vars(toks):
@@ -235,30 +310,29 @@ def translate_layer_fn(it):
     if len(tyvars) > 1:
         raise Unsupported(f'more than one type parameter: {tyvars}')
     body = parse_body2(it['body'])
-    if body[1] or body[2] is None or body[2][0] != 'match':
-        raise Unsupported('body is not a single match expression')
-    _, scrut, arms = body[2]
-    if scrut[0] != 'tuple' or not all(s[0] == 'path' and len(s[1]) == 1 for s in scrut[1]):
-        raise Unsupported(f'scrutinee {scrut}')
-    scrut_names = [s[1][0] for s in scrut[1]]
     pnames = [n for n, _ in params]
-    if any(s not in pnames for s in scrut_names):
-        raise Unsupported(f'scrutinee names {scrut_names}')
-    lines = []
     arm_report = []
-    for pat, guard, rhs in arms:
-        if guard is not None:
-            raise Unsupported('match guard')
-        alts = lean_pattern(pat, len(scrut_names))
-        scope = set(pnames) | pattern_vars(pat)
-        r = lean_body_expr(rhs, scope)
-        lines.append('  | ' + ' | '.join(alts) + ' => ' + r)
-        arm_report.append(dict(pattern=' '.join(pat), body=r))
+    if not body[1] and body[2] is not None and body[2][0] == 'match':
+        # the usual shape: one `match` over a tuple of parameters, printed arm by arm
+        _, scrut, arms = body[2]
+        scruts = scrut[1] if scrut[0] == 'tuple' else [scrut]
+        lines = ['  match ' + ', '.join(lean_body_expr(x, set(pnames)) for x in scruts) + ' with']
+        for pat, guard, rhs in arms:
+            if guard is not None:
+                raise Unsupported('match guard')
+            alts = lean_pattern(pat, len(scruts))
+            scope = set(pnames) | pattern_vars(pat)
+            r = lean_body_expr(rhs, scope)
+            lines.append('  | ' + ' | '.join(alts) + ' => ' + r)
+            arm_report.append(dict(pattern=' '.join(pat), body=r))
+    else:
+        r = lean_body_expr(body, set(pnames))
+        lines = ['  ' + r]
+        arm_report.append(dict(pattern='(expression)', body=r))
     binder = '{α : Type} ' if tyvars else ''
     sig = ' '.join(f'({lean_ident(n)} : {t})' for n, t in lparams)
     text = [f'/-- `{it["name"]}` ({CONFIG_RS}) -/',
-            f'def {it["name"]} {binder}{sig} : {ret} :=',
-            '  match ' + ', '.join(lean_ident(s) for s in scrut_names) + ' with'] + lines
+            f'def {it["name"]} {binder}{sig} : {ret} :='] + lines
     return '\n'.join(text), dict(name=it['name'], params=[(n, ' '.join(t)) for n, t in params],
                                  ret=' '.join(it['ret']), arms=arm_report)
 
@@ -298,6 +372,8 @@ def bound_in(e):
                 out |= pattern_bound(pat)
         if s and s[0] == 'let' and len(s) == 4 and isinstance(s[1], tuple) and s[1][0] == 'pat':
             out |= pattern_bound(s[1][1])
+        if s and s[0] == 'closure' and isinstance(s[1], tuple) and s[1][0] == 'pat':
+            out |= pattern_bound([t for t in s[1][1] if t not in ('&', ',', ':')])
     return out
 
 
@@ -566,10 +642,25 @@ def main():
             continue
         try:
             text, rep = translate_layer_fn(fns[name])
-            lean_fns.append(text)
+            lean_fns.append((name, text))
             fn_report.append(rep)
         except Unsupported as ex:
             problems.append(f'{name}: {ex}')
+    # a layering function may be written in terms of another one: definitions in dependency order
+    ordered, pending = [], list(lean_fns)
+    while pending:
+        progress = False
+        for name, text in list(pending):
+            body = text.split(':=', 1)[1]
+            if not any(re.search(r'\b' + other + r'\b', body) for other, _ in pending if other != name):
+                ordered.append(text)
+                pending.remove((name, text))
+                progress = True
+        if not progress:
+            problems.append('layering functions call each other cyclically: ' + ', '.join(n for n, _ in pending))
+            ordered += [t for _, t in pending]
+            break
+    lean_fns = ordered
     rows, derived, args_uses, file_uses, section_whole, sections = [], [], {}, {}, {}, {}
     if 'build_config' not in fns:
         problems.append('build_config: not found')
